@@ -122,12 +122,26 @@ def oracle_expm(case, R):
     err_i1 = np.abs(X[:n, n:2 * n] - I1).max()
     err_i2 = np.abs(h * X[:n, n:2 * n] - X[:n, 2 * n:] - I2).max()
     kappa = 1.0 + nrmAh
+    # strongly non-normal matrices (dense nilpotent / Jordan blocks with a large norm): the relative condition
+    # number of the exponential itself grows like ||Ah||^(n-1); measured errors of pyyeti AND of scipy follow
+    # eps * kappa_exp there (<= ~100 eps kappa_exp), while scipy's own error is no yardstick (the two
+    # algorithms differ by factors of 300 either way on such inputs)
+    try:
+        kexp = float(la.expm_cond(A * h)) if n and np.any(A) else 1.0
+        kexp_aug = float(la.expm_cond(M)) if n else 1.0
+    except Exception:
+        kexp = kexp_aug = 1.0
+    if not np.isfinite(kexp):
+        kexp = 1.0
+    if not np.isfinite(kexp_aug):
+        kexp_aug = 1.0
+    R.metric("kappa_exp/(1+||Ah||)", kexp / kappa)
     sE = max(np.abs(E).max(), 1.0)
     sI1 = max(np.abs(I1).max(), h)
     sI2 = max(np.abs(I2).max(), h * h / 2)
-    tolE = max(C_TOL * util.EPS * kappa * sE, 10 * err_s)
-    tolI1 = max(C_TOL * util.EPS * kappa * sI1, 10 * max(err_i1, err_s * h))
-    tolI2 = max(C_TOL * util.EPS * kappa * sI2, 10 * max(err_i2, err_i1 * h, err_s * h * h))
+    tolE = max(C_TOL * util.EPS * max(kappa, kexp) * sE, 10 * err_s)
+    tolI1 = max(C_TOL * util.EPS * max(kappa, kexp_aug) * sI1, 10 * max(err_i1, err_s * h))
+    tolI2 = max(C_TOL * util.EPS * max(kappa, kexp_aug) * sI2, 10 * max(err_i2, err_i1 * h, err_s * h * h))
     # F11 domain: I2 beyond Pade-9 comes from A^-1 formulas (or a raw power series when the
     # LU check fails); measured error grows like cond(A)^2*eps -> known finding for cond > 100
     illcond = singular or (sv.max() / sv.min() > 100.0)
